@@ -1039,6 +1039,8 @@ func runPlan(t *testing.T, p *lPlan) (out *runOut) {
 				}
 				w.session(sim, false)
 			}
+			// the processes are gone: whatever they left running (a store that was never closed keeps its ticker) ends here
+			sim.Abort("main finished")
 		})
 		res = sim.Run()
 		out.SimSec = time.Since(w.start).Seconds()
@@ -1069,7 +1071,7 @@ func runPlan(t *testing.T, p *lPlan) (out *runOut) {
 	if res.OutOfSteps && out.Infra == "" {
 		out.Infra = "step budget exhausted"
 	}
-	if res.Aborted && out.Infra == "" && len(out.Viol) == 0 {
+	if res.Aborted && res.Reason != "main finished" && out.Infra == "" && len(out.Viol) == 0 {
 		out.Infra = "aborted: " + res.Reason
 	}
 	out.Steps, out.Choices = sim.Steps, sim.Choices
